@@ -84,13 +84,20 @@ class Logged:
             raise self.fault[2]
         v = self.k * float(self.p["f"](x))
         self.fcalls.append((np.array(x, dtype=float).copy(), v))
+        self._scribble(x)
         return v
+
+    def _scribble(self, x):
+        # a user callable that uses its argument as scratch space (it is documented to receive a copy)
+        if getattr(self, "mutate", False) and isinstance(x, np.ndarray) and x.flags.writeable and not np.iscomplexobj(x):
+            x[...] = -4096.0
 
     def jac(self, x, *a):
         if self.fault and self.fault[0] == "jac" and len(self.gcalls) == self.fault[1]:
             raise self.fault[2]
         v = self.k * np.asarray(self.p["g"](x), dtype=float)
         self.gcalls.append((np.array(x, dtype=float).copy(), v.copy()))
+        self._scribble(x)
         if getattr(self, "buffer", False):
             # one preallocated work array, filled and returned at every call
             if getattr(self, "_gbuf", None) is None:
@@ -352,6 +359,7 @@ def scenario_single(c):
 def _single_one(c, name, p, out):
     L = Logged(p)
     L.buffer = bool(c.get("jac_buffer"))
+    L.mutate = bool(c.get("mutate_args"))
     ck = None
     ck_obj = None
     history = None
@@ -383,6 +391,7 @@ def _single_one(c, name, p, out):
         for cbk in cbks:
             L2 = L if ck is not None else Logged(p)
             L2.buffer = bool(c.get("jac_buffer"))
+            L2.mutate = bool(c.get("mutate_args"))
             jx = None
             if c.get("jac_mode"):
                 jx = dict(jac=None if c["jac_mode"] == "none" else c["jac_mode"])
@@ -641,7 +650,13 @@ def scenario_update(c):
                         rr = [r for r in rr if r > 0]
                         if rr:
                             cfac[0] = 1.3 * (rr[-1] if kind == "adaptive_all" else rr[len(rr) // 2]) / eps
-                    newG = deque(g2(np.array(xx)) for xx in X)
+                    if c.get("inplace"):
+                        # the stored arrays are rewritten in place and the same deque is handed back
+                        for gg, xx in zip(G, X):
+                            gg[...] = g2(np.array(xx))
+                        newG = G
+                    else:
+                        newG = deque(g2(np.array(xx)) for xx in X)
                     state["seen"] = dict(X=[np.array(xx, float).copy() for xx in X], G=[g.copy() for g in newG], x=np.array(x, float).copy(), f=f2(x), grad=g2(x))
                     return f2(x), f0_old, g2(x), newG
                 pp = dict(p, f=fun, g=jac)
@@ -694,6 +709,10 @@ def scenario_update(c):
                 st0["calls"] += 1
                 if st0["calls"] != 1:
                     return f0, f0_old, grad, G
+                if c.get("inplace"):
+                    for g in G:
+                        g[...] = -np.asarray(g, float)
+                    return -f0, f0_old, -np.asarray(grad, float), G
                 return -f0, f0_old, -np.asarray(grad, float), deque(-np.asarray(g, float) for g in G)
             pneg = dict(p, f=lambda x: -float(p["f"](x)), g=lambda x: -np.asarray(p["g"](x), float))
             R0 = run_once(pneg, dict(maxiter=int(ck0.nit), maxfun=10 ** 6, maxls=20, maxcor=mc, ftol=0.0, gtol=1e-12, **epskw), checkpoint=copy.deepcopy(ck0), x0=ck0.x, extra=dict(update_fun_def=upd0))
@@ -839,6 +858,24 @@ def scenario_scaler(c):
         if S["exc"] is None and S["res"].message == MSG["TARGET"]:
             if float(p["f"](S["snap"]["x"])) > ft:
                 bad["C17.target_tested_on_unscaled_value"] = "TARGET reported with unscaled f=%r > ftarget=%r" % (float(p["f"](S["snap"]["x"])), ft)
+        # the same through the stop tests that follow an update_fun_def call (identity update), s in {4, 1/4}:
+        # the scaler run with target T must equal the run on s*f with target s*T
+        if not c.get("jac"):
+            idu = lambda x, f0, f0_old, grad, X, G: (f0, f0_old, grad, G)
+            for s_ in (4.0, 0.25):
+                for frac in (1e-3, 0.2, 0.6):
+                    ftu = fstart - frac * (1 + abs(fstart))
+                    SU = run_once(p, dict(base, ftarget=ftu, maxiter=50), callback_kind="false", extra=dict(gradient_scaler=lambda x, g, l_, u_, _s=s_: _s, update_fun_def=idu))
+                    EU = run_once(p, dict(base, ftarget=s_ * ftu, maxiter=50), L=Logged(p, scale_obj=s_), callback_kind="false", extra=dict(update_fun_def=idu))
+                    if SU["exc"] or EU["exc"]:
+                        continue
+                    d = _same_state(SU["snap"], EU["snap"], fields=("x", "fun", "jac", "nfev", "njev", "nit", "message"), tol=1e-9)
+                    if d:
+                        bad.setdefault("C17.same_result_as_scaled_objective", "identity update_fun_def, target %g, s=%g: %s" % (ftu, s_, "; ".join(d)[:300]))
+                    if SU["res"].message == MSG["TARGET"] and float(p["f"](SU["snap"]["x"])) > ftu:
+                        bad.setdefault("C17.target_tested_on_unscaled_value", "identity update_fun_def, s=%g: TARGET reported with unscaled f=%r > ftarget=%r" % (s_, float(p["f"](SU["snap"]["x"])), ftu))
+        if S["exc"] is None and S["res"].message == MSG["TARGET"]:
+            pass
         elif S["exc"] is None:
             U = run_once(p, dict(base, ftarget=ft, maxiter=50))
             if U["exc"] is None and U["res"].message == MSG["TARGET"] and S["res"].message != MSG["TARGET"] and S["res"].nit >= U["res"].nit + 3:
@@ -918,6 +955,19 @@ def scenario_isolation(c):
             bad["C14.read_only_inputs_accepted"] = "read-only x0/bounds: %r" % (P4["exc"],)
         elif not (np.array_equal(x0, x0c) and np.array_equal(bnd, bndc)):
             bad["C14.inputs_untouched"] = "x0 or bounds modified"
+        if c.get("unbounded"):
+            # the same without finite bounds (nothing to project), x0 writable and then read-only
+            for ro in (False, True):
+                x0u = np.array(p["x0"], dtype=float)
+                bu = np.array([[-np.inf, np.inf]] * x0u.size)
+                x0u_c = x0u.copy()
+                x0u.flags.writeable = not ro
+                P4u = run_once(dict(p, bounds=bu), dict(base), x0=x0u, callback_kind="false")
+                if P4u["exc"]:
+                    if ro:
+                        bad.setdefault("C14.read_only_inputs_accepted", "read-only x0 without finite bounds: %r" % (P4u["exc"],))
+                elif not np.array_equal(x0u, x0u_c):
+                    bad.setdefault("C14.inputs_untouched", "without finite bounds the caller's x0 is modified: %s -> %s" % (x0u_c.tolist(), x0u.tolist()))
         # checkpoint: read-only, restart twice, with and without a scaler
         A = run_once(p, dict(base, maxiter=max(1, c.get("k", 2))))
         if not A["exc"]:
@@ -1123,4 +1173,21 @@ def fd_modes(c):
                 if f_here is None or kw.get("f0") != f_here:
                     bad.setdefault("C16.f0_given_to_differencing_is_value_at_x", "%s: f0=%r handed to the differencing routine, objective at that point is %r" % (name, kw.get("f0"), f_here))
                     bad.setdefault("C16.differencing_called_with_problem_bounds_and_current_value", bad["C16.f0_given_to_differencing_is_value_at_x"])
+    # a restart in a finite-difference mode: nfev keeps counting every objective call (stencil points included) across
+    # the two legs, njev the gradient computations
+    for name in ("qp2", "rosen2", "styb3"):
+        p = probs[name]
+        L = Logged(p)
+        A = run_once(p, dict(maxiter=2, maxfun=10 ** 6, maxls=20, maxcor=5, ftol=0.0, gtol=1e-12), L=L, extra=dict(jac=jac))
+        if A["exc"] is not None or A["res"].message != MSG["ITER"]:
+            continue
+        B = run_once(p, dict(maxiter=4, maxfun=10 ** 6, maxls=20, maxcor=5, ftol=0.0, gtol=1e-12), L=L, checkpoint=copy.deepcopy(A["res"]), x0=A["res"].x, extra=dict(jac=jac))
+        nruns += 1
+        if B["exc"] is not None:
+            bad.setdefault("no_exception", "%s: restart in mode %r raises %r" % (name, jac, B["exc"]))
+        else:
+            if B["snap"]["nfev"] != len(L.fcalls):
+                bad.setdefault("C16.nfev_counts_stencil_evaluations", "%s: after a restart nfev=%d but %d objective calls were made in the two legs" % (name, B["snap"]["nfev"], len(L.fcalls)))
+            if B["snap"]["njev"] != A["fd_grads"] + B["fd_grads"]:
+                bad.setdefault("C16.nfev_counts_stencil_evaluations", "%s: after a restart njev=%d but %d finite-difference gradients were computed in the two legs" % (name, B["snap"]["njev"], A["fd_grads"] + B["fd_grads"]))
     return dict(violated=bad, runs=nruns)
